@@ -156,7 +156,13 @@ class Harness:
             if req == 'run':
                 self.fe.run_script(path)
             elif req == 'stop':
-                self.fe.stop_script(path)
+                # alternately through the page handler (which first looks whether the script is running) and through the
+                # web application's own stop entry point
+                self.stops = getattr(self, 'stops', 0) + 1
+                if self.stops % 2:
+                    self.fe.stop_script(path)
+                else:
+                    self.app.stop_script(path)
             elif req == 'stop_current':
                 self.fe.stop_current()
             elif req == 'stop_all':
@@ -245,6 +251,7 @@ def history(h, manifest, rng, length):
         elif roll < 0.72 and running:
             steps.append(h.complete(rng.choice(running)))
         elif roll < 0.80:
+            steps.append(h.request('stop', rng.choice(listed + unlisted[:2])))
             steps.append(h.request('stop', rng.choice(listed + unlisted[:2])))
         elif roll < 0.85:
             steps.append(h.request('stop_current'))
